@@ -384,8 +384,12 @@ func (cfg *Config) getCertDuringHandshake(ctx context.Context, hello *tls.Client
 		logger.Debug("did not load cert from storage",
 			zap.String("server_name", hello.ServerName),
 			zap.Error(err))
-		if cfg.OnDemand != nil {
-			// By this point, we need to ask the CA for a certificate
+		if cfg.OnDemand != nil && !errors.Is(err, errMaintainingLoadedCert) {
+			// By this point, we need to ask the CA for a certificate.
+			// (Not if a certificate was loaded but its maintenance failed: it could
+			// not be renewed, or renewing it is no longer allowed. It is still in
+			// storage, so obtaining would only load it again, this time without
+			// asking whether that is allowed, and wait for a renewal by ourselves.)
 			return cfg.obtainOnDemandCertificate(ctx, hello)
 		}
 	}
@@ -444,11 +448,15 @@ func (cfg *Config) loadCertFromStorage(ctx context.Context, logger *zap.Logger, 
 		// it is no longer allowed, in which case it was also removed from the
 		// cache); never return an empty certificate together with a nil error
 		if maintainedCert.Empty() {
-			return Certificate{}, fmt.Errorf("maintaining newly-loaded certificate for %s: %w", name, err)
+			return Certificate{}, fmt.Errorf("%w for %s: %w", errMaintainingLoadedCert, name, err)
 		}
 	}
 	return maintainedCert, nil
 }
+
+// errMaintainingLoadedCert is returned (wrapped) by loadCertFromStorage when a certificate
+// was loaded from storage but its maintenance failed without yielding a certificate.
+var errMaintainingLoadedCert = errors.New("maintaining newly-loaded certificate")
 
 // optionalMaintenance will perform maintenance on the certificate (if necessary) and
 // will return the resulting certificate. This should only be done if the certificate
